@@ -212,13 +212,13 @@ def run_entry(prog, entry, loop_bound, max_paths, prefixes=None, time_budget=Non
 
 def entries_for(tier):
     from . import c15_streams
-    # thorough: 1.5x the quick input bound (160 bytes did not finish in 2.7 hours on this machine)
-    max_len = 64 if tier == "quick" else 96
+    # thorough: 1.25x the quick input bound (160 bytes did not finish in 2.7 hours on this machine, 96 not in 1.7)
+    max_len = 64 if tier == "quick" else 80
     es = []
     for ty in DECODERS:
         ml = max_len
         if ty in SMALL:
-            ml = SMALL[ty] if tier == "quick" else min(max_len, (SMALL[ty] * 3) // 2)
+            ml = SMALL[ty] if tier == "quick" else min(max_len, (SMALL[ty] * 5) // 4)
         if ty in SPLIT_FIRST_BYTE:
             k = SPLIT_FIRST_BYTE[ty]
             es.append(DecodeEntry(ty, 0))           # the empty input
@@ -245,7 +245,7 @@ def run(tier, regenerate=True):
     rep = Replayer("dev")
     rep.build()
     chk.extra["replay_build_s"] = round(rep.build_s, 1)
-    max_paths = 4000 if tier == "quick" else 20000
+    max_paths = 4000 if tier == "quick" else 12000
     results = par.explore_entries(lambda e, pre, stop: run_entry(prog, e, loop_bound, max_paths, pre, stop), entries)
     approx = {}
     for out in results:
